@@ -97,10 +97,15 @@ func c30Close(s *c30State) {
 	}
 	s.c30Bufs = nil
 	// Return the pipe's chunks to the package's chunk pool, as discarding the
-	// whole pipe would (keeps the allocator quiet and makes recycled chunks,
-	// with their stale contents, the common case).
+	// whole pipe would (keeps the allocator quiet and makes recycled chunks the
+	// common case). Their contents are poisoned first: a recycled chunk must
+	// never carry bytes that equal what a later execution of the same history
+	// expects at the same place, or a lost write would go unnoticed.
 	for pb, i := s.p.head, 0; pb != nil && i < 64; i++ {
 		next := pb.next
+		for j := range pb.b {
+			pb.b[j] = c30Poison
+		}
 		pb.recycle()
 		pb = next
 	}
@@ -273,6 +278,16 @@ func c30Apply(w *vx.W, s *c30State, op c30Op) bool {
 		s.end = max(s.end, off+n)
 	}
 	discard := func(off int64) {
+		// Everything before off is dead once discardBefore returns; poison it
+		// so that chunks the pipe recycles never carry plausible data (see c30Close).
+		for pb, i := s.p.head, 0; pb != nil && i < 64; pb, i = pb.next, i+1 {
+			for j := range pb.b {
+				if pb.off+int64(j) >= off {
+					break
+				}
+				pb.b[j] = c30Poison
+			}
+		}
 		s.p.discardBefore(off)
 		s.start = off
 		s.end = max(s.end, off)
